@@ -9,6 +9,7 @@ import OptreeModel.Properties.C06
 import OptreeModel.Properties.C02
 import OptreeModel.Lemmas.Graft
 import OptreeModel.Lemmas.UpToPrefix
+import OptreeModel.Lemmas.EncTransformNode
 
 namespace Optree
 
@@ -508,6 +509,48 @@ example :
     (match makeFromCollection cfg (collOf cfg t), flatten cfg t with
       | .ok sp', .ok (_, sp) => sp'.nodes == sp.nodes && sp'.nodes.length == 5
       | _, _ => false) = true := by decide
+
+
+/-! ### `transform` with a node function -/
+
+/-- **`transform(f_node, f_leaf)` rewrites every node and replaces every leaf**: if `f_node` answers, for the
+one-level treespec of a node with information `i` and `k` children, the one-level treespec of `g i k` with `k`
+children (in the same namespace or none), and `f_leaf` always answers the treespec of `b`, then `transform`
+returns the encoding of the tree with every node's information rewritten by `g` and every leaf replaced by `b`
+— all well-formed shapes, any nesting (the result must itself be well-formed: `g` keeps dict keys distinct etc.) -/
+theorem C08_transform_node_refines (a b : STree) (g : NInfo → Nat → NInfo) (ha : a.wf = true)
+    (ha' : (a.mapInfo g).wf = true) (nil : Bool) (ns nsb : String) (hnsb : nsb = ns ∨ nsb = "")
+    (fN : Spec → Except Err Spec)
+    (hN : ∀ (i : NInfo) (k : Nat), i.kind ≠ .leaf → ∃ nsT, (nsT = ns ∨ nsT = "") ∧
+      fN (olSpec nil ns i k) = .ok (olSpec nil nsT (g i k) k)) :
+    transform (a.spec nil ns) (some fN) (some fun _ => .ok (b.spec nil nsb)) =
+      .ok (((a.mapInfo g).subst b).spec nil ns) :=
+  transform_node_enc a b g ha ha' nil ns nsb hnsb fN hN
+
+/-- counts are those of `compose`: the node function cannot change the number of leaves or nodes -/
+theorem C08_transform_node_counts (a b : STree) (g : NInfo → Nat → NInfo) :
+    ((a.mapInfo g).subst b).leaves = a.leaves * b.leaves := by
+  rw [STree.subst_leaves, STree.mapInfo_leaves]
+
+/-- non-vacuity: turning every list node into a tuple node -/
+def C08_listToTuple (i : NInfo) (_ : Nat) : NInfo :=
+  if i.kind == .list then ⟨.tuple, .none, Option.none, Option.none, Option.none⟩ else i
+
+def C08_listToTupleFn (sp : Spec) : Except Err Spec :=
+  match sp.nodes.getLast? with
+  | some r =>
+      if r.kind == .list then
+        .ok { sp with nodes := sp.nodes.dropLast ++ [{ r with kind := .tuple }] }
+      else .ok sp
+  | Option.none => .error .internal
+
+example :
+    let a : STree := .node ⟨.list, .none, Option.none, Option.none, Option.none⟩
+      [.leaf, .node ⟨.tuple, .none, Option.none, Option.none, Option.none⟩ [.leaf, .node ⟨.list, .none, Option.none, Option.none, Option.none⟩ []]]
+    a.wf = true ∧ (a.mapInfo C08_listToTuple).wf = true ∧
+    (match transform (a.spec false "") (some C08_listToTupleFn) (some fun _ => .ok (STree.leaf.spec false "")) with
+      | .ok sp => sp.nodes == ((a.mapInfo C08_listToTuple).subst .leaf).enc
+      | .error _ => false) = true := by decide
 
 
 end Optree
